@@ -154,6 +154,8 @@ class Context:
         self.interp = Interp(self.u)
         self.interp.loop_handler = _loop_handler
         self.interp.symbolic_listcomp = lambda node, frame: _symbolic_listcomp(self.interp, node, frame)
+        self.interp.symbolic_setcomp = lambda node, frame: _symbolic_setcomp(self.interp, node, frame)
+        self.ghost_elems = []
         self.axioms = []
         self.axiom_names = []
         self.axiom_groups = []
@@ -597,6 +599,74 @@ class LoopInv:
     hints: object = None  # optional extra facts (c, env, i, seq) -> list of z3 Bool, proved separately or trivially valid
 
 
+def _set_loop_handler(interp, node, it, frame, li, key, cur):
+    """for x in <symbolic set>: executed with an arbitrary not-yet-visited element, so a proved
+    postcondition does not depend on the iteration order.  inv(c, env, visited, whole)."""
+    from .core import TSet
+
+    ctx = interp.ctx
+    ps = interp.path
+    S = it.t
+    empty = z3.EmptySet(it.ty.elem.sort())
+
+    def env_now():
+        return {k: frame.lookup(k) for k in li.havoc}
+
+    ps.oblige(f"{cur.get('name')}:loop{key}:inv-entry", "inv-entry", li.inv(ctx, env_now(), empty, S))
+    which = ps.choose([z3.BoolVal(True), z3.BoolVal(True)], f"loop{key} step/exit")
+    for name, ty in li.havoc.items():
+        frame.locals[name] = interp.wrap(ps.fresh(f"{name}_h", ty), ty)
+    if which == 0:
+        V = ps.fresh("visited", it.ty)
+        x = ps.fresh("elem", it.ty.elem)
+        ps.assume(z3.And(z3.IsSubset(V, S), z3.IsMember(x, S), z3.Not(z3.IsMember(x, V))))
+        ps.assume(li.inv(ctx, env_now(), V, S))
+        interp.assign(node.target, interp.wrap(x, it.ty.elem), frame)
+        from .interp import _Break, _Continue
+
+        try:
+            interp.exec_block(node.body, frame)
+        except _Continue:
+            pass
+        except _Break:
+            raise OutsideSubset("break inside a loop with an invariant")
+        ps.oblige(f"{cur.get('name')}:loop{key}:inv-step", "inv-step", li.inv(ctx, env_now(), z3.SetAdd(V, x), S))
+        raise PathEnd()
+    ps.assume(li.inv(ctx, env_now(), S, S))
+    interp.exec_block(node.orelse, frame)
+
+
+def _symbolic_setcomp(interp, node, frame):
+    """{x for x in S if cond(x)} over a symbolic set: a fresh subset T of S whose membership is
+    characterised at the ghost elements registered in ctx.ghost_elems (contracts are stated for an
+    arbitrary fixed element, so that is all a proof can use)."""
+    import ast as _ast
+
+    from .core import TSet
+    from .interp import Frame
+
+    if len(node.generators) != 1 or not isinstance(node.generators[0].target, _ast.Name):
+        return NotImplemented
+    g = node.generators[0]
+    it = interp.eval(g.iter, frame)
+    if not (isinstance(it, Sym) and isinstance(it.ty, TSet)):
+        return NotImplemented
+    if not (isinstance(node.elt, _ast.Name) and node.elt.id == g.target.id):
+        raise OutsideSubset("set comprehension over a symbolic set that is not a filter")
+    ps = interp.path
+    T = ps.fresh("filtered", it.ty)
+    ps.assume(z3.IsSubset(T, it.t))
+    for k in getattr(interp.ctx, "ghost_elems", []):
+        inner = Frame({g.target.id: interp.wrap(k, it.ty.elem)}, frame, frame.globs, frame.fn_name, frame.module)
+        cond = True
+        for c in g.ifs:
+            v = interp.eval(c, inner)
+            cond = interp.and_all([cond, v]) if not isinstance(v, bool) or not isinstance(cond, bool) else (cond and v)
+        ct = interp.to_bool_term(cond)
+        ps.assume(z3.IsMember(k, T) == z3.And(z3.IsMember(k, it.t), ct))
+    return Sym(T, it.ty)
+
+
 def _loop_handler(interp, node, it, frame):
     ctx = interp.ctx
     cur = getattr(interp, "current", None) or {}
@@ -607,6 +677,10 @@ def _loop_handler(interp, node, it, frame):
             li = v
     if li is None:
         raise OutsideSubset(f"loop over symbolic sequence in {cur.get('name')} (ordinal {key[1]}) has no invariant")
+    from .core import TSet as _TSet
+
+    if isinstance(it.ty, _TSet):
+        return _set_loop_handler(interp, node, it, frame, li, key[1], cur)
     ps = interp.path
     seq_t = it.t
     n = z3.Length(seq_t)
